@@ -430,3 +430,65 @@ func (s *Sub) Recv() (lightning.Invoice, error) {
 		s.blocked = false
 	}
 }
+
+// Saved is a deep copy of the ledger (without live subscriptions).
+type Saved struct {
+	inv   map[string]Invoice
+	pay   map[string]Payment
+	calls int
+}
+
+func (l *LN) Save() *Saved {
+	l.mu.Lock()
+	defer l.mu.Unlock()
+	s := &Saved{inv: map[string]Invoice{}, pay: map[string]Payment{}, calls: len(l.Calls)}
+	for k, v := range l.Invoices {
+		c := *v
+		s.inv[k] = c
+	}
+	for k, v := range l.Payments {
+		s.pay[k] = *v
+	}
+	return s
+}
+
+// Restore puts the ledger back (subscriptions of restored invoices are kept as they are).
+func (l *LN) Restore(s *Saved) {
+	l.mu.Lock()
+	defer l.mu.Unlock()
+	for k := range l.Invoices {
+		if _, ok := s.inv[k]; !ok {
+			delete(l.Invoices, k)
+		}
+	}
+	for k, v := range s.inv {
+		if cur := l.Invoices[k]; cur != nil {
+			subs := cur.subs
+			*cur = v
+			cur.subs = subs
+		} else {
+			c := v
+			l.Invoices[k] = &c
+		}
+	}
+	l.Payments = map[string]*Payment{}
+	for k, v := range s.pay {
+		c := v
+		l.Payments[k] = &c
+	}
+	l.PayScript = map[string][]Answer{}
+	l.StatusScript = map[string][]Answer{}
+}
+
+// PayCalls counts payment attempts recorded so far.
+func (l *LN) PayCalls() int {
+	l.mu.Lock()
+	defer l.mu.Unlock()
+	n := 0
+	for _, c := range l.Calls {
+		if c.Method == "SendPayment" || c.Method == "PayPartialAmount" {
+			n++
+		}
+	}
+	return n
+}
